@@ -152,7 +152,10 @@ def build_driver(log):
             return True, ""
         for s in srcs:
             shutil.copy(s, d)
-        order = ["util.ml"] + [f for f in mls if f.startswith("s_")] + ["driver.ml"]
+        order = [l.strip() for l in open(os.path.join(ROOT, "ocaml", "ORDER")) if l.strip()]
+        for f in os.listdir(d):
+            if f.endswith((".cmi", ".cmx", ".o", ".cmo")):
+                os.unlink(os.path.join(d, f))
         rc, out = sh("ocamlfind ocamlopt -O3 -w -a -package zarith -linkpkg model.mli model.ml %s -o driver 2>&1"
                      % " ".join(order), cwd=d, timeout=900)
         log.append(out)
